@@ -89,8 +89,9 @@ type Instance struct {
 	Funcs       map[string]bool
 	Cegar       int
 	WallS       float64
-	Events      [][]AccessEvent // per path, if LogEvents
-	PathCalls   [][]string
+	Traces      [][][]raceEvent // distinct coalesced per-thread traces, if LogEvents
+	traceSeen   map[string]bool
+	TracePaths  int
 	ReaderCalls int
 	SampleObl   []string
 }
@@ -198,9 +199,28 @@ func (inst *Instance) Run(P *Program, solverName string, timeoutMs int, seed int
 			inst.SeenInputs[in.Name] = in.Kind
 		}
 		if inst.LogEvents && end.Kind == "done" {
-			inst.Events = append(inst.Events, x.events)
-			inst.PathCalls = append(inst.PathCalls, x.callLog)
+			// keep only the coalesced per-thread traces, one per distinct shape
+			var threads [][]raceEvent
+			if inst.Harness == "H_C12_sched" {
+				threads = splitSched(x.events)
+			} else {
+				threads = splitThreads(x.events)
+			}
+			var flat []raceEvent
+			for _, t := range threads {
+				flat = append(flat, t...)
+			}
+			sig := raceSignature(flat)
+			if inst.traceSeen == nil {
+				inst.traceSeen = map[string]bool{}
+			}
+			inst.TracePaths++
+			if !inst.traceSeen[sig] {
+				inst.traceSeen[sig] = true
+				inst.Traces = append(inst.Traces, threads)
+			}
 		}
+		x.events = nil
 		if x.readerCalls > inst.ReaderCalls {
 			inst.ReaderCalls = x.readerCalls
 		}
